@@ -673,6 +673,66 @@ func main() {
 			os.Exit(1)
 		}
 	}
-	js, _ := json.Marshal(map[string]interface{}{"file": out, "unsafe_sites": count(unsafeSites), "changed": string(old) != sb.String()})
+	transBad := writeTranslations(repo, outdir, fset, parse)
+	js, _ := json.Marshal(map[string]interface{}{"translated": "Trans.lean", "untranslatable": transBad, "file": out, "unsafe_sites": count(unsafeSites), "changed": string(old) != sb.String()})
 	fmt.Println(string(js))
+}
+
+
+// writeTranslations re-translates the functions listed here from /repo's current sources.
+func writeTranslations(repo, outdir string, fset *token.FileSet, parse func(string) *ast.File) []string {
+	var sb strings.Builder
+	sb.WriteString("-- GENERATED by /verif/extract (translate.go) from /repo's working tree: do not edit.\n")
+	sb.WriteString("import RedactVerif.Model.GoPrelude\n")
+	sb.WriteString("namespace Redact.Trans\nopen Redact\n\n")
+	var allBad []string
+	find := func(f *ast.File, recv, name string) *ast.FuncDecl {
+		for _, d := range f.Decls {
+			fd, ok := d.(*ast.FuncDecl)
+			if !ok || fd.Body == nil || fd.Name.Name != name {
+				continue
+			}
+			r := ""
+			if fd.Recv != nil && len(fd.Recv.List) == 1 {
+				switch t := fd.Recv.List[0].Type.(type) {
+				case *ast.StarExpr:
+					if id, ok := t.X.(*ast.Ident); ok {
+						r = id.Name
+					}
+				case *ast.Ident:
+					r = t.Name
+				}
+			}
+			if r == recv {
+				return fd
+			}
+		}
+		return nil
+	}
+	emit := func(file, recv, name, leanName string, consts map[string]string, ctypes map[string]ltype) {
+		f := parse(file)
+		fd := find(f, recv, name)
+		if fd == nil {
+			allBad = append(allBad, "missing function "+recv+"."+name+" in "+file)
+			fmt.Fprintf(&sb, "-- %s.%s: not found in %s\ndef %s : Unit := untranslatable \"missing\"\n\n", recv, name, file, leanName)
+			return
+		}
+		txt, bad := translateFunc(fset, fd, leanName, consts, ctypes)
+		fmt.Fprintf(&sb, "/-- translated from %s: func %s -/\n%s\n", file, name, txt)
+		allBad = append(allBad, bad...)
+	}
+	emit("internal/fmtforward/make_format.go", "", "MakeFormat", "MakeFormat", nil, nil)
+	sb.WriteString("end Redact.Trans\n")
+	out := filepath.Join(outdir, "Trans.lean")
+	old, _ := os.ReadFile(out)
+	if string(old) != sb.String() {
+		if err := os.WriteFile(out, []byte(sb.String()), 0o644); err != nil {
+			fmt.Fprintln(os.Stderr, err)
+			os.Exit(1)
+		}
+	}
+	if allBad == nil {
+		allBad = []string{}
+	}
+	return allBad
 }
